@@ -259,74 +259,88 @@ def factory_facts(prog: Program, rep: Report):
                     break
             if ok:
                 feas.append(p)
-        if len(feas) != 1:
-            rep.undecided("R10.2", f"{MOD}._get_binding", f.loc, f"{len(feas)} feasible loop paths for kind {kind}", detail=kind)
+        if not feas:
+            rep.undecided("R10.2", f"{MOD}._get_binding", f.loc, f"no feasible loop path for kind {kind}", detail=kind)
             continue
-        p = feas[0]
-        if p.exit[0] != "return":
-            rep.undecided("R10.2", f"{MOD}._get_binding", f.loc, f"kind {kind}: path does not return", detail=kind)
-            continue
-        # keys registered on the local mapping that is later passed as binding=
-        ret = p.exit[1]
-        if ret[0] != "call":
-            rep.undecided("R10.2", f"{MOD}._get_binding", f.loc, "return is not a binder construction", detail=kind)
-            continue
-        kwargs = dict(ret[3])
-        reg_index = reg_name = False
-        um_ok = True
-        um_term = None
-        for e in p.events:
-            if e[0] == "setitem" and e[1][0] == "dict":
-                idx, val = e[2], e[3]
-                if not (T.is_call_to(val, "typelib.unmarshals.api.unmarshaller") and len(val[2]) == 1 and val[2][0][0] == "attr" and val[2][0][2] == "annotation"):
-                    um_ok = False
-                um_term = val
-                if idx[0] == "index":
-                    reg_index = True
-                elif idx[0] == "unpack" or idx[0] == "key":
-                    reg_name = True
-        if um_term is None:
+        cands = []
+        for p in feas:
+            if p.exit[0] != "return":
+                rep.undecided("R10.2", f"{MOD}._get_binding", f.loc, f"kind {kind}: path does not return", detail=kind)
+                continue
+            # keys registered on the local mapping that is later passed as binding=
+            ret = p.exit[1]
+            if ret[0] != "call":
+                rep.undecided("R10.2", f"{MOD}._get_binding", f.loc, "return is not a binder construction", detail=kind)
+                continue
+            kwargs = dict(ret[3])
+            reg_index = reg_name = False
+            um_ok = True
+            um_term = None
             for e in p.events:
-                if e[0] == "assign" and T.is_call_to(e[2], "typelib.unmarshals.api.unmarshaller") and len(e[2][2]) == 1 and e[2][2][0][0] == "attr" and e[2][2][0][2] == "annotation":
-                    um_term = e[2]
-        truth = None
-        truth_call = None
-        for e in p.events:
-            if e[0] == "assign" and e[2][0] == "call" and T.refname(e[2][1]) == f"{MOD}._Truth":
-                truth_call = e[2]
-        # the truth may also be built inline in the subscript
-        if truth_call is None:
-            for c in T.calls_in(ret):
-                if T.refname(c[1]) == f"{MOD}._Truth":
-                    truth_call = c
-        if truth_call is not None:
-            truth = {}
-            for k, v in truth_call[3]:
-                vv = _under_kind(v, kind)
-                truth[k] = vv[1] if vv[0] == "const" else None
-        maxpos = None
-        inloop = False
-        startpos_vars = _startpos_vars(prog)
-        for e in p.events:
-            if e[0] == "loop" and e[2] == 1:
-                inloop = True
-            if inloop and e[0] == "assign" and e[1] in startpos_vars:
-                maxpos = e[2]
-        sp = kwargs.get("startpos")
-        facts[kind] = {
-            "reg_index": reg_index,
-            "reg_name": reg_name,
-            "um_ok": um_ok,
-            "truth": truth,
-            "maxpos": _affine(maxpos) if maxpos is not None else "unchanged",
-            "varpos": kwargs.get("varpos"),
-            "varkwd": kwargs.get("varkwd"),
-            "um_term": um_term,
-            "binding_kw": kwargs.get("binding"),
-            "startpos_term": sp,
-            "cls_term": ret[1],
-            "loc": f.loc,
-        }
+                if e[0] == "setitem" and e[1][0] == "dict":
+                    idx, val = e[2], e[3]
+                    if not (T.is_call_to(val, "typelib.unmarshals.api.unmarshaller") and len(val[2]) == 1 and val[2][0][0] == "attr" and val[2][0][2] == "annotation"):
+                        um_ok = False
+                    um_term = val
+                    if idx[0] == "index":
+                        reg_index = True
+                    elif idx[0] == "unpack" or idx[0] == "key":
+                        reg_name = True
+            if um_term is None:
+                for e in p.events:
+                    if e[0] == "assign" and T.is_call_to(e[2], "typelib.unmarshals.api.unmarshaller") and len(e[2][2]) == 1 and e[2][2][0][0] == "attr" and e[2][2][0][2] == "annotation":
+                        um_term = e[2]
+            truth = None
+            truth_call = None
+            for e in p.events:
+                if e[0] == "assign" and e[2][0] == "call" and T.refname(e[2][1]) == f"{MOD}._Truth":
+                    truth_call = e[2]
+            # the truth may also be built inline in the subscript
+            if truth_call is None:
+                for c in T.calls_in(ret):
+                    if T.refname(c[1]) == f"{MOD}._Truth":
+                        truth_call = c
+            if truth_call is not None:
+                truth = {}
+                for k, v in truth_call[3]:
+                    vv = _under_kind(v, kind)
+                    truth[k] = vv[1] if vv[0] == "const" else None
+            maxpos = None
+            inloop = False
+            startpos_vars = _startpos_vars(prog)
+            for e in p.events:
+                if e[0] == "loop" and e[2] == 1:
+                    inloop = True
+                if inloop and e[0] == "assign" and e[1] in startpos_vars:
+                    maxpos = e[2]
+            sp = kwargs.get("startpos")
+            cands.append({
+                "reg_index": reg_index,
+                "reg_name": reg_name,
+                "um_ok": um_ok,
+                "truth": truth,
+                "maxpos": _affine(maxpos) if maxpos is not None else "unchanged",
+                "varpos": kwargs.get("varpos"),
+                "varkwd": kwargs.get("varkwd"),
+                "um_term": um_term,
+                "binding_kw": kwargs.get("binding"),
+                "startpos_term": sp,
+                "cls_term": ret[1],
+                "loc": f.loc,
+            })
+        if not cands:
+            continue
+        # several feasible paths for one kind (a further condition inside the loop): all must register the parameter's own
+        # annotation; a path that does not is the one judged
+        off = [c for c in cands if not c["um_ok"] or (c["um_term"] is None)]
+        same = all(all(c[k] == cands[0][k] for k in ("reg_index", "reg_name", "truth", "maxpos", "varpos", "varkwd")) for c in cands)
+        if off:
+            off[0]["um_ok"] = False
+            facts[kind] = off[0]
+        elif same:
+            facts[kind] = cands[0]
+        else:
+            rep.undecided("R10.2", f"{MOD}._get_binding", f.loc, f"{len(feas)} feasible loop paths for kind {kind} with different facts", detail=kind)
     # startpos as a function of max_pos, from the kind path whose max_pos is index-based and from the skip path
     skip = skip_paths[0]
     sp_none = None
